@@ -28,7 +28,7 @@ fn wf(g: &BaseGrid) -> bool {
         && g.rows.checked_mul(g.cols).and_then(|x| x.checked_mul(g.bands)).and_then(|x| x.checked_add(g.offset)).map(|e| e <= g.grid.len()).unwrap_or(false)
 }
 
-//@h {"id":"C08.K.plain.invariant","props":["C08","C15","C09"],"tier":"quick","kind":"complete","timeout":900,"text":"BaseGrid::plain for EVERY 7-element header (all f64 bit patterns) and an internal grid of 0..12 values: never panics or overflows, and every Ok(g) satisfies the representation invariant WF(g): rows,cols >= 2, bands >= 1, offset + rows*cols*bands <= grid.len() without overflow"}
+//@h {"id":"C08.K.plain.invariant","props":["C08","C15","C09"],"tier":"quick","kind":"complete","timeout":1800,"text":"BaseGrid::plain for EVERY 7-element header (all f64 bit patterns) and an internal grid of 0..12 values: never panics or overflows, and every Ok(g) satisfies the representation invariant WF(g): rows,cols >= 2, bands >= 1, offset + rows*cols*bands <= grid.len() without overflow"}
 #[kani::proof]
 #[kani::unwind(14)]
 fn c08_plain_invariant() {
@@ -80,7 +80,7 @@ fn grid3(bands: usize, nodes: &[f32]) -> BaseGrid {
     BaseGrid { lat_n: 4.0, lat_s: 0.0, lon_w: 0.0, lon_e: 16.0, dlat: -2.0, dlon: 8.0, rows: 3, cols: 3, bands, offset: 0, grid: Vec::from(nodes) }
 }
 
-//@h {"id":"C08.K.at.safe","props":["C08","C15","C09"],"tier":"quick","kind":"complete","timeout":900,"text":"3x3 grid (1..3 bands, any node values): contains/at never panic, overflow or read out of bounds for ANY query point (all f64 bit patterns incl. NaN/inf) and margin in {0, 0.5, 1e-6}; at() is Some exactly when contains() holds; a delivered value comes with the point inside grid + margin"}
+//@h {"id":"C08.K.at.safe","props":["C08","C15","C09"],"tier":"quick","kind":"complete","timeout":1800,"text":"3x3 grid (1..3 bands, any node values): contains/at never panic, overflow or read out of bounds for ANY query point (all f64 bit patterns incl. NaN/inf) and margin in {0, 0.5, 1e-6}; at() is Some exactly when contains() holds; a delivered value comes with the point inside grid + margin"}
 #[kani::proof]
 #[kani::unwind(30)]
 fn c08_at_safe() {
@@ -129,26 +129,26 @@ fn at_node(bands: usize) {
         r += 1;
     }
 }
-//@h {"id":"C08.K.at.node.1band","props":["C08"],"tier":"quick","kind":"bounded","bound":"3x3 grid, 1 band, exactly representable geometry; node values: pairwise distinct power-of-two probes","timeout":600,"text":"querying each of the nine node positions returns that node's value (weights 0/1 are exact); unused bands are 0"}
+//@h {"id":"C08.K.at.node.1band","props":["C08"],"tier":"quick","kind":"bounded","bound":"3x3 grid, 1 band, exactly representable geometry; node values: pairwise distinct power-of-two probes","timeout":1800,"text":"querying each of the nine node positions returns that node's value (weights 0/1 are exact); unused bands are 0"}
 #[kani::proof]
 #[kani::unwind(30)]
 fn c08_at_node_1() {
     at_node(1);
 }
-//@h {"id":"C08.K.at.node.2bands","props":["C08"],"tier":"quick","kind":"bounded","bound":"3x3 grid, 2 bands","timeout":600,"text":"as above, two bands"}
+//@h {"id":"C08.K.at.node.2bands","props":["C08"],"tier":"quick","kind":"bounded","bound":"3x3 grid, 2 bands","timeout":1800,"text":"as above, two bands"}
 #[kani::proof]
 #[kani::unwind(30)]
 fn c08_at_node_2() {
     at_node(2);
 }
-//@h {"id":"C08.K.at.node.3bands","props":["C08"],"tier":"quick","kind":"bounded","bound":"3x3 grid, 3 bands","timeout":600,"text":"as above, three bands"}
+//@h {"id":"C08.K.at.node.3bands","props":["C08"],"tier":"quick","kind":"bounded","bound":"3x3 grid, 3 bands","timeout":1800,"text":"as above, three bands"}
 #[kani::proof]
 #[kani::unwind(30)]
 fn c08_at_node_3() {
     at_node(3);
 }
 
-//@h {"id":"C08.K.at.cell_order","props":["C08"],"tier":"quick","kind":"bounded","bound":"one interior cell of the 3x3 grid, 2 bands, node values = distinct powers of two, query at cell-relative (1/4, 3/4): all arithmetic exact","timeout":600,"text":"inside a cell the result is (1-u)(1-v) ll + u(1-v) lr + (1-u)v ul + uv ur with u east-, v north-relative: detects swapped weights, swapped rows/columns and band mix-ups, which a grid whose values equal its coordinates cannot"}
+//@h {"id":"C08.K.at.cell_order","props":["C08"],"tier":"quick","kind":"bounded","bound":"one interior cell of the 3x3 grid, 2 bands, node values = distinct powers of two, query at cell-relative (1/4, 3/4): all arithmetic exact","timeout":1800,"text":"inside a cell the result is (1-u)(1-v) ll + u(1-v) lr + (1-u)v ul + uv ur with u east-, v north-relative: detects swapped weights, swapped rows/columns and band mix-ups, which a grid whose values equal its coordinates cannot"}
 #[kani::proof]
 #[kani::unwind(30)]
 fn c08_at_cell_order() {
@@ -172,7 +172,7 @@ fn c08_at_cell_order() {
     assert!(v[2] == 0.0 && v[3] == 0.0, "C08.K.at.cell_order.unused: bands the grid does not have read 0");
 }
 
-//@h {"id":"C08.K.at.margin","props":["C08"],"tier":"quick","kind":"bounded","bound":"3x3 grid, 1 band, node values = powers of two; points a quarter cell outside each of the four borders","timeout":600,"text":"within the half-cell margin the correction continues the border cell linearly; outside the margin, and at margin 0, the point is rejected"}
+//@h {"id":"C08.K.at.margin","props":["C08"],"tier":"quick","kind":"bounded","bound":"3x3 grid, 1 band, node values = powers of two; points a quarter cell outside each of the four borders","timeout":1800,"text":"within the half-cell margin the correction continues the border cell linearly; outside the margin, and at margin 0, the point is rejected"}
 #[kani::proof]
 #[kani::unwind(30)]
 fn c08_at_margin() {
@@ -276,7 +276,7 @@ fn grids_at_case(maxn: usize) {
     assert!(opt_same(&r, &e), "C08.K.grids_at.first_hit: first grid containing the point, then first within the margin, then null grid, else failure");
 }
 
-//@h {"id":"C08.K.grids_at.first_hit","props":["C08"],"tier":"quick","kind":"bounded","bound":"lists of 0..=2 grids with symbolic answers (any Option<Coor4D>) at margin 0 and at margin 0.5","timeout":900,"text":"grids_at returns the first hit in list order at margin 0, else the first hit at margin 0.5, else the zero correction if the null grid is given, else None"}
+//@h {"id":"C08.K.grids_at.first_hit","props":["C08"],"tier":"quick","kind":"bounded","bound":"lists of 0..=2 grids with symbolic answers (any Option<Coor4D>) at margin 0 and at margin 0.5","timeout":1800,"text":"grids_at returns the first hit in list order at margin 0, else the first hit at margin 0.5, else the zero correction if the null grid is given, else None"}
 #[kani::proof]
 #[kani::unwind(6)]
 fn c08_grids_at_first_hit() {
@@ -290,7 +290,7 @@ fn c08_grids_at_first_hit_3() {
     grids_at_case(3);
 }
 
-//@h {"id":"C08.K.gravsoft.units","props":["C08","C15"],"tier":"quick","kind":"bounded","bound":"2x2 grids with 1, 2 and 3 bands on a 1-degree geometry; node values: power-of-two probes","timeout":900,"text":"Gravsoft normalisation: header degrees -> radians; 2 bands: (lat,lon) arcsec -> (lon,lat) radians; 3 bands: (lat,lon,h) mm/yr -> (lon,lat,h) m/yr; 1 band and projected (|border| > 720) grids untouched"}
+//@h {"id":"C08.K.gravsoft.units","props":["C08","C15"],"tier":"quick","kind":"bounded","bound":"2x2 grids with 1, 2 and 3 bands on a 1-degree geometry; node values: power-of-two probes","timeout":1800,"text":"Gravsoft normalisation: header degrees -> radians; 2 bands: (lat,lon) arcsec -> (lon,lat) radians; 3 bands: (lat,lon,h) mm/yr -> (lon,lat,h) m/yr; 1 band and projected (|border| > 720) grids untouched"}
 #[kani::proof]
 #[kani::unwind(16)]
 fn c08_gravsoft_units() {
